@@ -204,7 +204,7 @@ pub fn run(ctx: &Ctx, rep: &mut Report) {
     rep.bound("square", J::s("0..=65537 x 0..=65537, 8 entry points, complete"));
 
     // ---- extremes
-    let ext: Vec<usize> = vec![0, 1, 2, 65535, 65536, 65537, 1 << 31, 1 << 32, 1 << 63, usize::MAX - 1, usize::MAX];
+    let ext: Vec<usize> = vec![0, 1, 2, 65535, 65536, 65537, 1 << 31, 1 << 32, (1 << 32) + 1, (1 << 32) + 2, (1 << 32) + 65536, (1 << 48) + 1, 1 << 63, usize::MAX - 1, usize::MAX];
     let mut cases: Vec<Kv> = Vec::new();
     for (ei, _) in eps.iter().enumerate() {
         for &k in &ext {
